@@ -51,4 +51,26 @@ CLAIMS = {
         "note": "Undecided: invariants after sequences beyond per-step preservation (induction is left to the reader), float "
                 "equality of in-place and copy results. Shared Mesh/Region objects between fields are a documented design choice.",
     },
+    "C01": {
+        "technique": "static analysis: term normal form (rational polynomials over interned atoms) of the lattice getters and the "
+                     "index/point maps against the formulas in the statement, symbolic substitution for the round trip, guard "
+                     "dominance on the CFG for the refusals, comprehension/zip alignment of per-axis quantities",
+        "level": _GEN + "For C01: cell = edges/n, centres pmin+(i+1/2)cell, point2index = clip(floor((p-pmin)/cell),0,n-1), the "
+                 "composition floors index+1/2, cells/vertices are per-axis linspaces with aligned operands, iteration is "
+                 "first-dimension-fastest, the coordinate field pairs component i with axis i, containment uses the stated "
+                 "tolerances, and out-of-range indices/points and non-commensurate cell sizes are refused before any result.",
+        "note": "Undecided: every floating-point aspect (rounding at cell faces, the 0.1% divisibility and tolerance boundaries, "
+                "exact tiling). Trusted: numpy floor/clip/linspace, itertools.product ordering.",
+    },
+    "C02": {
+        "technique": "static analysis: shape domain over _as_array returns, who-may-write audit of _array, per-overload idiom rules "
+                     "(loop order, index/point pairing, sentinel and default handling) decided on term normal forms with "
+                     "functional store semantics, guard dominance for rejections",
+        "level": _GEN + "For C02: every specification kind yields shape (*n, nvdim); dictionary values are written in reversed listing "
+                 "order into region2slices blocks keyed consistently, defaults fill exactly the sentinel cells cell by cell; "
+                 "function values pair index and centre of the same cell; sampling, iteration, component access and line sampling "
+                 "use the documented lookups; wrong types/component counts are refused before anything is stored.",
+        "note": "Undecided: numeric equality of stored values with the specification (dtype casting, NaN sentinel colliding with "
+                "NaN data, nearest-cell ties). Trusted: xarray nearest selection, np.full broadcasting, np.argwhere.",
+    },
 }
